@@ -322,7 +322,8 @@ impl Value {
         match self {
             Value::Null => serde_json::Value::Null,
             Value::Int(value) => serde_json::Value::Number(serde_json::Number::from(*value)),
-            Value::Float(Float(value)) => serde_json::Value::Number(serde_json::Number::from_f64(*value).unwrap()),
+            // JSON has no representation for NaN and the infinities: they are printed as null
+            Value::Float(Float(value)) => serde_json::Number::from_f64(*value).map(|value| serde_json::Value::Number(value)).unwrap_or(serde_json::Value::Null),
             Value::Bool(value) => serde_json::Value::Bool(*value),
             Value::String(value) => serde_json::Value::String(value.clone()),
             Value::Array(_, value) => serde_json::Value::Array(value.iter().map(|x| x.json_value()).collect()),
